@@ -61,7 +61,8 @@ func (t TTMLIn) metadata() (m *Metadata) {
 		Title:         t.Metadata.Title,
 		TTMLCopyright: t.Metadata.Copyright,
 	}
-	if v, ok := ttmlLanguageMapping.Get(astikit.StrPad(t.Lang, ' ', 2, astikit.PadCut)); ok {
+	// (language tags are case-insensitive: "EN", "Fr-fr")
+	if v, ok := ttmlLanguageMapping.Get(strings.ToLower(astikit.StrPad(t.Lang, ' ', 2, astikit.PadCut))); ok {
 		m.Language = v.(string)
 	}
 	return
